@@ -26,6 +26,9 @@ type Step struct {
 	Part int     `json:"part,omitempty"`
 	Ts   []int64 `json:"ts,omitempty"`
 	Name string  `json:"name,omitempty"`
+	// burst: pipes created and pipes deleted by concurrent requests
+	Create []string `json:"create,omitempty"`
+	Delete []string `json:"delete,omitempty"`
 }
 
 type Surgery struct {
@@ -43,6 +46,9 @@ type Session struct {
 	// Blind: nothing is asked of the server between the start of this session and its first step (no read, no RANGE
 	// probe: a query lets the time index learn the chunks its snapshot does not know; here a write finds them unknown)
 	Blind bool `json:"blind,omitempty"`
+	// Hold (with Blind): the rebuilder of the time index is held for the whole session: a chunk info that a write marks
+	// as partial (the index learnt about the chunk from that write) is still partial when the session ends
+	Hold bool `json:"hold,omitempty"`
 }
 
 type Scenario struct {
@@ -326,6 +332,7 @@ type trace struct {
 	pre     []Obs    // one per session: what the server showed just before the session ended
 	obs     []Obs    // one per start
 	errs    []string // harness-level notes
+	cut     int      // > 0: the (single) session was ended by SIGKILL after so many steps (burst scenarios)
 	stepErr string   // a plain request (write, flush, pipe create / delete) the server refused: the scenario ended there
 	drops   []string // per partition removal: which of its two file-system effects came first ("data-first", "record-first", "unseen")
 	inject  []string // how every injected crash ended ("start:died:file size limit exceeded", ...)
@@ -339,9 +346,10 @@ func runScenario(sc *Scenario) (*trace, error) {
 	tr := &trace{}
 	saved := map[string][]byte{}
 	gaveUp, rangeGaveUp := false, false
+	burstPipes := map[string]bool{}
 	ghosts := 0
 	skipped, pendingAtTear, lastRound, positionLost := 0, 0, 0, false // the forwarding pipe: see the "round" step
-	start := func(blind bool) (*child, error) {
+	start := func(blind, hold bool) (*child, error) {
 		var c *child
 		var started bool
 		var msg string
@@ -364,6 +372,12 @@ func runScenario(sc *Scenario) (*trace, error) {
 		}
 		if blind {
 			tr.obs = append(tr.obs, Obs{Started: true, Blind: true})
+			if hold {
+				if _, err := c.do(Cmd{Op: "hold"}); err != nil {
+					c.kill()
+					return nil, err
+				}
+			}
 			return c, nil
 		}
 		o, err := observe(c, sc)
@@ -389,14 +403,14 @@ func runScenario(sc *Scenario) (*trace, error) {
 		return c, nil
 	}
 	for si, ss := range sc.Sessions {
-		c, err := start(ss.Blind)
+		c, err := start(ss.Blind, ss.Blind && ss.Hold)
 		if err != nil {
 			return nil, err
 		}
 		if c == nil {
 			return tr, nil // the server refuses to start: the scenario ends here
 		}
-		for _, st := range ss.Steps {
+		for ti, st := range ss.Steps {
 			var cmd Cmd
 			switch st.Op {
 			case "write":
@@ -417,6 +431,8 @@ func runScenario(sc *Scenario) (*trace, error) {
 				soft := int64(size + 10)
 				ghosts++
 				cmd = Cmd{Op: "write", Tags: fmt.Sprintf("app=c07,ghost=f%d", ghosts), Ts: []int64{1}, Soft: &soft}
+			case "burst":
+				cmd = Cmd{Op: "burst", Create: st.Create, Delete: st.Delete}
 			case "drop":
 				cmd = Cmd{Op: "drop", Tags: sc.tags(st.Part)}
 			case "fwdpipe":
@@ -458,6 +474,26 @@ func runScenario(sc *Scenario) (*trace, error) {
 			if err != nil {
 				c.kill()
 				return nil, fmt.Errorf("session %d: %v", si, err)
+			}
+			if st.Op == "burst" {
+				for _, n := range st.Create {
+					burstPipes[n] = true
+				}
+				for _, n := range st.Delete {
+					delete(burstPipes, n)
+				}
+				var want []string
+				for n := range burstPipes {
+					want = append(want, n)
+				}
+				sort.Strings(want)
+				if fmt.Sprint(want) != fmt.Sprint(a.Pipes) {
+					// the file is behind what was acknowledged: the crash comes now (the rest of the session is not run), the
+					// start that follows shows it
+					tr.cut = ti + 1
+					tr.inject = append(tr.inject, "burst:file-behind")
+					break
+				}
 			}
 			if st.Op == "failcreate" && (a.Short || a.Count > 0) {
 				tr.errs = append(tr.errs, "index-save-failed-write-acknowledged")
@@ -555,7 +591,7 @@ func runScenario(sc *Scenario) (*trace, error) {
 			}
 		}
 	}
-	c, err := start(false)
+	c, err := start(false, false)
 	if err != nil {
 		return nil, err
 	}
